@@ -150,6 +150,8 @@ def run(ctx: Ctx):
         ctx.traces += n * len(ALL)
     two_part_and_shapes(ctx, Time, drv, epochs)
     scalar_readout(ctx, Time, epochs)
+    text_wide_years(ctx, Time, drv)
+    text_mutations(ctx, Time, drv, epochs)
 
 
 def check_intfrac(ctx, drv, t, case, epochs):
@@ -439,6 +441,178 @@ def two_part_and_shapes(ctx, Time, drv, epochs):
                 got = frac(np.atleast_1d(np.asarray(t.jd1, dtype=float))[0]) + frac(np.atleast_1d(np.asarray(t.jd2, dtype=float))[0])
                 if abs(got - want_dt) > 2 * NS:
                     ctx.violate(f"two-part-value:{name}", f"two-part {name} input is off by {float((got - want_dt) * 86400):.6g} s", case)
+
+
+# -------------------------------------------------------------------------------------------------
+# text formats: the whole calendar range of `datetime` (years 1..9999) and texts that were *not* rendered
+
+
+def _to_jds_text(Time, fmt, scale, text):
+    """Time(text, fmt=...) on the real code -> ("ok", jd1, jd2) | ("err",) | ("raise:<Type>",)"""
+    try:
+        t = Time(text, fmt=fmt, scale=scale)
+        return ("ok", frac(float(t.jd1)), frac(float(t.jd2)))
+    except ValueError:
+        return ("err",)
+    except Exception as e:  # anything else is not the documented refusal
+        return (f"raise:{type(e).__name__}",)
+
+
+def _model_to_jds_text(drv, fmt, scale, texts):
+    out = []
+    for a in drv.ask([f"c02 tojds {fmt} {scale} {hexs(t) if t else '.'} -" for t in texts]):
+        if a == "err":
+            out.append(("err",))
+        else:
+            m1, m2 = (F(x) for x in a.split())
+            out.append(("ok", m1, m2))
+    return out
+
+
+def text_wide_years(ctx, Time, drv):
+    """render and parse over years 1..9999: the four-digit-year patterns survive from year 1000 on (glibc prints
+    `%Y` unpadded), the two-digit form inside 1969..2068 — the domains of the theorems `text_parse_render` /
+    `isot_short_year`, tied to CPython here"""
+    rng = ctx.rng
+    years = [1, 2, 9, 10, 99, 100, 999, 1000, 1001, 1582, 1600, 1899, 1968, 1969, 1970, 2000, 2068, 2069, 2400, 9998, 9999]
+    years += [rng.randint(1, 999) for _ in range(ctx.budget(6, 60))]
+    years += [rng.randint(1000, 9999) for _ in range(ctx.budget(30, 500))]
+    eps = []
+    for y in years:
+        leap = y % 4 == 0 and (y % 100 != 0 or y % 400 == 0)
+        cands = [(1, 1), (12, 31), (2, 28), (3, 1), (rng.randint(1, 12), rng.randint(1, 28))] + ([(2, 29)] if leap else [])
+        for (m, d) in rng.sample(cands, 3):
+            us = rng.choice([0, 1, DAY_US - 1, 43200 * 10**6, 999999, 1000000, 86399 * 10**6, rng.randint(0, DAY_US - 1), rng.randint(0, DAY_US - 1)])
+            if y == 9999 and (m, d) == (12, 31):
+                us = min(us, DAY_US - 10)  # stay inside datetime's range after rounding
+            eps.append((y, (datetime(y, m, d) - DT2000).days, us))
+    scale = "utc"
+    v1 = np.array([float(F(4903089, 2) + d) for _, d, _ in eps])
+    v2 = np.array([float(F(us, DAY_US)) for _, _, us in eps])
+    t0 = Time(v1, val2=v2, fmt="jd", scale=scale)
+    j1 = [frac(x) for x in np.asarray(t0.jd1)]
+    j2 = [frac(x) for x in np.asarray(t0.jd2)]
+    for fmt in TEXT:
+        try:
+            v = [str(x) for x in getattr(t0, fmt)]
+        except Exception as e:
+            ctx.violate(f"read-raises:{fmt}", f"reading .{fmt} for years 1..9999 raised {type(e).__name__}: {e}", {"fmt": fmt})
+            continue
+        ans = drv.ask([f"c02 fromjds {fmt} {scale} {rs(a)} {rs(b)}" for a, b in zip(j1, j2)])
+        back_m = _model_to_jds_text(drv, fmt, scale, v)
+        for i, (y, d, us) in enumerate(eps):
+            case = {"scale": scale, "fmt": fmt, "jd1": float(j1[i]), "jd2": float(j2[i]), "year": y}
+            ctx.case([scale, fmt, d, us, "wide"], nontrivial=us % 10**6 != 0)
+            if unhex(ans[i]) != v[i]:
+                if near_tie(j2[i] * DAY_US):
+                    ctx.count("rounding-tie-skipped")
+                    continue
+                ctx.disagree(f"from_jds ({fmt}), years 1..9999", case, unhex(ans[i]), v[i])
+                continue
+            r = _to_jds_text(Time, fmt, scale, v[i])
+            m = back_m[i]
+            dom = (1969 <= y <= 2068) if fmt == "yydddsssss" else (1000 <= y <= 9999)
+            ctx.count(f"text-years:{fmt}:{'in-domain' if dom else ('year<1000' if y < 1000 else 'outside-pivot')}:{r[0]}")
+            if r[0] != m[0] or (r[0] == "ok" and abs((r[1] + r[2]) - (m[1] + m[2])) > F(1, 10**15)):
+                ctx.disagree(f"to_jds ({fmt}), years 1..9999", {**case, "text": v[i]}, [str(x) for x in m], [str(x) for x in r])
+                continue
+            if dom:
+                # the theorem's domain: the round trip must succeed within the resolution
+                if r[0] != "ok":
+                    ctx.violate(f"roundtrip-refused:{fmt}", f"{fmt} text {v[i]!r} written by the library is refused by it", case)
+                elif abs((r[1] + r[2]) - (j1[i] + j2[i])) > RES[fmt]:
+                    ctx.violate(f"roundtrip:{fmt}", f"{fmt} round trip of {v[i]!r} is off by {float(abs((r[1] + r[2]) - (j1[i] + j2[i])) * 86400):.3e} s", case)
+        ctx.traces += len(eps)
+
+
+def _mutations(rng, fmt, s):
+    """texts near a rendered one: other field widths, values out of range, other fractions, other separators, junk"""
+    out = [("identity", s)]
+    if fmt in ("isot", "iso", "yday"):
+        main, _, fr = s.partition(".")
+        out.append(("no-fraction", main))
+        out.append(("empty-fraction", main + "."))
+        k = rng.randint(1, 5)
+        out.append((f"fraction-{k}-digits", main + "." + fr[:k]))
+        extra = "".join(rng.choice("0123456789") for _ in range(rng.randint(1, 3)))
+        if set(extra) <= {"0"} or extra[0] == "5" and set(extra[1:]) <= {"0"}:
+            extra = "7" + extra[1:]  # stay away from exact rounding ties (float vs exact decimal)
+        out.append(("fraction-longer", main + "." + fr + extra))
+        out.append(("fraction-rounds-up", main + ".9999996"))
+        out.append(("fraction-exponent", main + ".5e-1"))
+        out.append(("fraction-blank-after", s + " "))
+        out.append(("two-points", main + ".12.5"))
+        hms = main[-8:]
+        head = main[:-8]
+        for name, t in (("hour-24", "24" + hms[2:]), ("minute-60", hms[:3] + "60" + hms[5:]), ("second-60", hms[:6] + "60"),
+                        ("second-61", hms[:6] + "61"), ("second-62", hms[:6] + "62"), ("hour-1-digit", hms[1:] if hms[0] == "0" else "7" + hms[2:]),
+                        ("second-1-digit", hms[:6] + hms[7]), ("minute-3-digits", hms[:3] + "0" + hms[3:])):
+            out.append((name, head + t + "." + fr))
+    if fmt in ("isot", "iso", "date"):
+        ymd = s[:10]
+        rest = s[10:]
+        y, m, d = ymd.split("-")
+        for name, t in (("month-13", f"{y}-13-{d}"), ("month-00", f"{y}-00-{d}"), ("day-32", f"{y}-{m}-32"), ("day-00", f"{y}-{m}-00"),
+                        ("feb-30", f"{y}-02-30"), ("feb-29", f"{y}-02-29"), ("apr-31", f"{y}-04-31"), ("month-1-digit", f"{y}-{int(m)}-{d}"),
+                        ("day-1-digit", f"{y}-{m}-{int(d)}"), ("year-5-digits", f"1{y}-{m}-{d}"), ("year-3-digits", f"{y[1:]}-{m}-{d}"),
+                        ("year-0000", f"0000-{m}-{d}"), ("month-3-digits", f"{y}-0{m}-{d}"), ("slash", f"{y}/{m}/{d}")):
+            out.append((name, t + rest))
+        out.append(("leading-blank", " " + s))
+        out.append(("junk-after", s + "x"))
+    if fmt == "date":
+        out.append(("date-with-fraction", s + ".5"))
+        out.append(("date-trailing-blank", s + " "))
+    if fmt == "isot":
+        out.append(("T-to-blank", s.replace("T", " ")))
+        out.append(("T-lower", s.replace("T", "t")))
+    if fmt == "iso":
+        out.append(("two-blanks", s.replace(" ", "  ")))
+        out.append(("tab", s.replace(" ", "\t")))
+        out.append(("blank-to-T", s.replace(" ", "T")))
+        out.append(("no-separator", s.replace(" ", "")))
+    if fmt == "yday":
+        y, j, rest = s.split(":", 2)
+        for name, t in (("doy-000", f"{y}:000:{rest}"), ("doy-366", f"{y}:366:{rest}"), ("doy-367", f"{y}:367:{rest}"),
+                        ("doy-2-digits", f"{y}:{int(j) % 100 or 7}:{rest}"), ("doy-4-digits", f"{y}:0{j}:{rest}"),
+                        ("year-2-digits", f"{y[2:]}:{j}:{rest}"), ("year-0000", f"0000:{j}:{rest}"), ("year-9999-doy-366", f"9999:366:{rest}")):
+            out.append((name, t))
+    if fmt in ("yydddsssss", "yyyydddsssss"):
+        y, j, sec = s.split(":")
+        for name, t in (("doy-000", f"{y}:000:{sec}"), ("doy-366", f"{y}:366:{sec}"), ("doy-367", f"{y}:367:{sec}"),
+                        ("doy-2-digits", f"{y}:{j[1:]}:{sec}"), ("sec-empty", f"{y}:{j}:"), ("sec-1-digit", f"{y}:{j}:7"),
+                        ("sec-6-digits", f"{y}:{j}:1{sec}"), ("sec-fraction", f"{y}:{j}:{sec}.{rng.randint(0, 999999):06d}"),
+                        ("sec-half", f"{y}:{j}:{sec}.5"), ("sec-negative", f"{y}:{j}:-1"), ("sec-exponent", f"{y}:{j}:1e3"),
+                        ("sec-blank", f"{y}:{j}: {sec}"), ("sec-junk", f"{y}:{j}:{sec}x"), ("year-other-width", f"{y[1:]}:{j}:{sec}"),
+                        ("year-68", f"{y[:-2]}68:{j}:{sec}"), ("year-69", f"{y[:-2]}69:{j}:{sec}"), ("colon-missing", f"{y}:{j}{sec}")):
+            out.append((name, t))
+    return out
+
+
+def text_mutations(ctx, Time, drv, epochs):
+    """`_str2dt` / `_yds2jd` / strptime on texts that are *not* what strftime printed: the model's parser and the
+    real one must accept the same texts (ValueError <-> err) and denote the same instant"""
+    rng = ctx.rng
+    sel = rng.sample(epochs, min(len(epochs), ctx.budget(12, 150)))
+    scale = "tai"
+    v1 = np.array([float(F(4903089, 2) + d) for d, _ in sel])
+    v2 = np.array([float(F(us, DAY_US)) for _, us in sel])
+    t0 = Time(v1, val2=v2, fmt="jd", scale=scale)
+    for fmt in TEXT:
+        rendered = [str(x) for x in getattr(t0, fmt)]
+        names, texts = [], []
+        for s in rendered:
+            for name, t in _mutations(rng, fmt, s):
+                names.append(name)
+                texts.append(t)
+        model = _model_to_jds_text(drv, fmt, scale, texts)
+        for name, t, m in zip(names, texts, model):
+            r = _to_jds_text(Time, fmt, scale, t)
+            ctx.case([fmt, "mutation", t], nontrivial=True)
+            ctx.count(f"text-mutation:{fmt}:{name}:{r[0]}")
+            if r[0] != m[0] or (r[0] == "ok" and abs((r[1] + r[2]) - (m[1] + m[2])) > F(1, 10**15)):
+                ctx.disagree(f"to_jds ({fmt}) on a text that was not rendered [{name}]", {"fmt": fmt, "scale": scale, "text": t},
+                             [str(x) for x in m], [str(x) for x in r])
+        ctx.traces += len(texts)
 
 
 def replay(payload):
